@@ -244,8 +244,14 @@ def check_main(prop, tier, workers=16, nruns=None, evidence=True):
     confirmed = []
     unreplayed = []
     for d in violations[:8]:
-        r = subprocess.run([PY, os.path.join(ROOT, "check"), "--replay", d["replay"], "--quiet"],
-                           env=dict(os.environ, PYTHONHASHSEED=d["hashseed"]))
+        # a violation whose cause lies outside the seams (e.g. OS entropy inside a dependency)
+        # may need more than one attempt to show again: up to four replays
+        for attempt in range(4):
+            r = subprocess.run([PY, os.path.join(ROOT, "check"), "--replay", d["replay"], "--quiet"],
+                               env=dict(os.environ, PYTHONHASHSEED=d["hashseed"]))
+            if r.returncode == 1:
+                break
+        d["replay_attempts"] = attempt + 1
         if r.returncode == 1:
             confirmed.append(d)
             if len(confirmed) >= 5:
@@ -333,7 +339,9 @@ def check_main(prop, tier, workers=16, nruns=None, evidence=True):
         return 2
     if confirmed:
         for d in confirmed:
-            print(f"  violation: {d['violation']['fingerprint']}: {d['violation']['detail'][:300]}")
+            print(f"  violation: {d['violation']['fingerprint']}: {d['violation']['detail'][:300]}" +
+                  (f" [reproduced on replay attempt {d['replay_attempts']}: not fully deterministic]"
+                   if d.get("replay_attempts", 1) > 1 else ""))
             print(f"VIOLATION property={prop} replay={d['replay']}")
         return 1
     if len(lines) != nruns:
